@@ -18,7 +18,7 @@ type valueResolver struct{}
 var valueVars = map[string]string{"x": "2", "y": "3", "z": "0", "h": "0.5", "n": "-4", "foo.bar": "7", "a_1": "1.25", "sp": " 6 ",
 	"e": "1e-2", "neg": "-3", "big": "123456789012345678901234567890", "ws": "  ", "str": "abc", "expr": "22 + 2", "bool": "true",
 	"paren": "(1)", "comma": "1,2", "inf": "Inf", "max4": "922337203685477.5807", "tiny": "0.00001", "fn": "abs(-1)", "mid": "16777217.000000001",
-	"a1e": "5", "r2e": "3", "x.1e": "7", "a#1e": "9", "rate": "1.5", "ch": "$x", "ch2": "$ch", "A1e": "4"}
+	"a1e": "5", "r2e": "3", "x.1e": "7", "a#1e": "9", "rate": "1.5", "ch": "$x", "ch2": "$ch", "A1e": "4", "A1E": "4"}
 
 func (valueResolver) ResolveVariable(name string) string { return valueVars[name] }
 
